@@ -135,13 +135,19 @@ impl Position {
                 }
             }
         } else if let (Some(w), Some(h)) = (self.width, self.height) {
-            if let Some((x1, x2)) = x_ext {
-                Some(BoundingBox::new(x1, 0., x2, h))
-            } else if let Some((y1, y2)) = y_ext {
-                Some(BoundingBox::new(0., y1, w, y2))
+            // if x/y (etc) are absent, SVG says they are treated as zero - which for an
+            // ellipse, as for a circle, is where its centre is.
+            let (ox, oy) = if self.shape == "ellipse" {
+                (-w / 2., -h / 2.)
             } else {
-                // if x/y (etc) are absent, SVG says they are treated as zero.
-                Some(BoundingBox::new(0., 0., w, h))
+                (0., 0.)
+            };
+            if let Some((x1, x2)) = x_ext {
+                Some(BoundingBox::new(x1, oy, x2, oy + h))
+            } else if let Some((y1, y2)) = y_ext {
+                Some(BoundingBox::new(ox, y1, ox + w, y2))
+            } else {
+                Some(BoundingBox::new(ox, oy, ox + w, oy + h))
             }
         } else {
             None
